@@ -386,7 +386,13 @@ def _emit_call_block(w, case, iface, method, plan):
                 read_outs.append('zkey(zlens, "%s");' % name)
                 read_outs.append("zlens += std::to_string(%s_lenout);" % x)
             elif kind == "obj":
-                w.w("%s %s;" % (_obj_cpp_type(case, t), x))
+                # every other output proxy is RE-USED: it still manages an object from an earlier
+                # call (owned by the proxy: released by `consume` on success, by the destructor
+                # otherwise — exactly once either way, and by nobody else)
+                if i % 2 == 1:
+                    w.w("%s %s(counting_new(%d));" % (_obj_cpp_type(case, t), x, 800 + i))
+                else:
+                    w.w("%s %s;" % (_obj_cpp_type(case, t), x))
                 args.append(x)
                 read_outs += [key, "zouts += zobj(%s.get());" % x, "zdrop(%s.extract());" % x]
             elif kind == "objarr":
